@@ -402,12 +402,18 @@ func (e *Exec) fieldLoc(st *State, base Val, structT types.Type, idx int) (Val, 
 		// embedded-by-value struct: address is an injected sub-object reference
 		fn := e.fun(sym("sub."+owner+"."+f.Name()), []string{SInt}, SInt)
 		r := app(fn, ref)
+		if !strings.Contains(r, "|q:") {
+			st.assumeOnce(tImp(tNot(tEq(ref, "0")), app(">", r, "0")))
+		}
 		v := Val{T: []string{r}, Typ: types.NewPointer(f.Type()), Sub: &SubObj{Owner: owner, Path: f.Name(), Obj: ref}}
 		return v, true
 	}
 	if isStruct(f.Type()) {
 		fn := e.fun(sym("sub."+owner+"."+f.Name()), []string{SInt}, SInt)
 		r := app(fn, ref)
+		if !strings.Contains(r, "|q:") {
+			st.assumeOnce(tImp(tNot(tEq(ref, "0")), app(">", r, "0")))
+		}
 		return Val{T: []string{r}, Typ: types.NewPointer(f.Type()), Sub: &SubObj{Owner: owner, Path: f.Name(), Obj: ref}}, true
 	}
 	loc := &Loc{Key: fieldKey(owner, f.Name()), Typ: f.Type(), Ref: ref, Owner: owner, Field: f.Name()}
